@@ -39,6 +39,8 @@ fn main() {
         "bulk" => bulk(),
         "dbsync" => dbsync(),
         "keys" => keys(),
+        "names" => names(),
+        "grow" => grow(),
         "stats" => stats(),
         _ => { eprintln!("unknown scenario"); 2 }
     };
@@ -709,6 +711,77 @@ fn keys() -> i32 {
             if back != ints { return Err("vu64 map: iterated keys do not convert back to the integers put".into()); }
             let mut back: Vec<u64> = mi.iter().map(|(k, _)| i64::from(k) as u64).collect(); back.sort();
             if back != ints { return Err("i64 map: iterated keys do not convert back to the integers put".into()); }
+        }
+        Ok(())
+    }));
+    let _ = std::fs::remove_dir_all(&dir);
+    match res { Ok(Ok(())) => { println!("OK"); 0 } Ok(Err(e)) => { println!("MISMATCH: {e}"); 1 }
+        Err(e) => { let msg = e.downcast_ref::<String>().cloned().unwrap_or_default();
+            if msg.contains("key_offset != new_key_offset") || msg.contains("_prev_key_offset != new_prev_key_offset") { println!("OK (stopped at recorded finding K1)"); 0 } else { println!("MISMATCH: panicked: {msg}"); 1 } } }
+}
+
+/// maps whose names look alike (dots, common prefixes, upper/lower case, spaces): each keeps its own contents across close and reopen
+fn names() -> i32 {
+    let dir = tmpdir("names");
+    let res = std::panic::catch_unwind(std::panic::AssertUnwindSafe(|| -> Result<(), String> {
+        let params = FileDbParams { buckets_size: HashBucketsParam::BucketsSize(8), ..Default::default() };
+        let names = ["events", "events.2023", "events.2024", "events.2023.bak", "a", "a.b", "a.key", "A", "x y", "users", "users.old", "m.htx"];
+        for session in 0..3 {
+            let db = abyssiniandb::open_file(&dir).unwrap();
+            for (i, nm) in names.iter().enumerate() {
+                let mut m = db.db_map_string_with_params(nm, params.clone()).unwrap();
+                // what the previous sessions left in THIS map
+                if m.len().unwrap() != 2 * session as u64 { return Err(format!("session {session}: map {nm:?} has {} entries, expected {}", m.len().unwrap(), 2 * session)); }
+                for s0 in 0..session {
+                    if m.get_string(&format!("own-{s0}")).unwrap() != Some(format!("{nm}/{s0}")) { return Err(format!("session {session}: map {nm:?} lost or changed its entry of session {s0}")); }
+                    if m.get_string(&format!("k{i}-{s0}")).unwrap() != Some("x".to_string()) { return Err(format!("session {session}: map {nm:?} lost k{i}-{s0}")); }
+                }
+                m.put_string(&format!("own-{session}"), &format!("{nm}/{session}")).unwrap();
+                m.put_string(&format!("k{i}-{session}"), "x").unwrap();
+            }
+        }
+        Ok(())
+    }));
+    let _ = std::fs::remove_dir_all(&dir);
+    match res { Ok(Ok(())) => { println!("OK"); 0 } Ok(Err(e)) => { println!("MISMATCH: {e}"); 1 } Err(_) => { println!("MISMATCH: panicked"); 1 } }
+}
+
+/// C06: freed space is reused — (a) a value that outgrows its slot frees it and the next fitting put reuses it (file length unchanged),
+/// also with a statistics call in between; (b) put-all / delete-all cycles do not grow the files after the first cycle; the slots tile the files
+fn grow() -> i32 {
+    let dir = tmpdir("grow");
+    let res = std::panic::catch_unwind(std::panic::AssertUnwindSafe(|| -> Result<(), String> {
+        let params = FileDbParams { buckets_size: HashBucketsParam::BucketsSize(8), ..Default::default() };
+        let flen = |d: &std::path::Path, e: &str| std::fs::metadata(d.join(format!("m.{e}"))).unwrap().len();
+        for with_stats in [false, true] {
+            let _ = std::fs::remove_dir_all(&dir);
+            let db = abyssiniandb::open_file(&dir).unwrap();
+            let mut m = db.db_map_string_with_params("m", params.clone()).unwrap();
+            m.put("a", &[1u8; 10]).unwrap(); m.put("b", &[2u8; 10]).unwrap();
+            m.put("a", &[3u8; 40]).unwrap();            // a outgrows its 16-byte slot: the slot is freed
+            m.sync_all().unwrap(); let l0 = flen(&dir, "val");
+            if with_stats { let _ = m.count_of_free_value_piece().unwrap(); }
+            m.put("c", &[4u8; 10]).unwrap();            // fits the freed slot
+            m.sync_all().unwrap(); let l1 = flen(&dir, "val");
+            if l1 != l0 { return Err(format!("value file grew from {l0} to {l1} although a fitting free slot existed (statistics call in between: {with_stats})")); }
+            for (k, v) in [("a", vec![3u8; 40]), ("b", vec![2u8; 10]), ("c", vec![4u8; 10])] { if m.get(k).unwrap() != Some(v) { return Err(format!("get({k}) differs")); } }
+        }
+        for klen in [5usize, 19, 27] {
+            let _ = std::fs::remove_dir_all(&dir);
+            let db = abyssiniandb::open_file(&dir).unwrap();
+            let mut m = db.db_map_string_with_params("m", params.clone()).unwrap();
+            let keys: Vec<String> = (0..40).map(|i| format!("{:0w$}", i, w = klen)).collect();
+            let mut lens: Vec<(u64, u64)> = Vec::new();
+            for cycle in 0..6 {
+                for (i, k) in keys.iter().enumerate() { m.put(k, &vec![cycle as u8; 8 + (i % 5) * 30]).unwrap(); }
+                for k in keys.iter() { if m.delete(k).unwrap().is_none() { return Err(format!("cycle {cycle}: delete({k}) found nothing")); } }
+                m.sync_all().unwrap();
+                lens.push((flen(&dir, "key"), flen(&dir, "val")));
+            }
+            if lens[5] != lens[0] { return Err(format!("key length {klen}: file lengths (key, val) per put-all/delete-all cycle {lens:?}: they grow although everything was freed")); }
+            for ext in ["key", "val"] { let b = std::fs::read(dir.join(format!("m.{ext}"))).unwrap(); walk_slots(&b).map_err(|e| format!("m.{ext}: {e}"))?; }
+            let fk: u64 = m.count_of_free_key_piece().unwrap().iter().map(|x| x.0 as u64 * x.1).sum();
+            if 192 + fk > flen(&dir, "key") { return Err("free key slots exceed the file".into()); }
         }
         Ok(())
     }));
